@@ -447,7 +447,10 @@ class World:
                     rc.reset()                            # Model.initialize resets the states of its nodes at first use
                 feats = [np.asarray(rc.run(farr(s, d)), dtype=float).tolist() for s in o["X"]]
                 X, Ys = self.batch(o, rd)
-                if o["op"] == "mfit":
+                if o["op"] == "mfit" and o.get("only"):
+                    # targets named for SOME readouts only (a legal way to refit part of an already fitted model)
+                    self.model(m).fit(X, {self.nodes[j].name: Ys[j] for j in o["only"]}, warmup=o["warmup"], **o.get("kw", {}))
+                elif o["op"] == "mfit":
                     self.model(m).fit(X, self.targets_arg(o, rd, Ys, True), warmup=o["warmup"], **o.get("kw", {}))
                 else:
                     self.model(m).train(X[0], self.targets_arg(o, rd, Ys, False))
@@ -649,7 +652,7 @@ def _targets(w, o):
         j = o["node"]
         return {j} if w.kinds[j] in on and w.nodes[j].is_trainable else set()
     if o["op"] == "mfit":
-        return {j for j in sc["models"][o["model"]]["readouts"] if w.kinds[j] in off and w.nodes[j].is_trainable}
+        return {j for j in (o.get("only") or sc["models"][o["model"]]["readouts"]) if w.kinds[j] in off and w.nodes[j].is_trainable}
     if o["op"] == "mtrain":
         return {j for j in sc["models"][o["model"]]["readouts"] if w.kinds[j] in on and w.nodes[j].is_trainable}
     return set()
@@ -972,10 +975,33 @@ def judge(case):
     return judge_frame(sc)
 
 
+def gen_partial_targets(rng, i):
+    """reservoir >> [2-3 Ridge readouts]: a complete Model.fit, then Model.fit naming targets for SOME readouts only (whether the
+    library accepts or refuses that call, the readouts it does not name must keep their parameters), then a model run."""
+    store = gen_store(rng, force=["ridge"] * rng.randint(2, 3))
+    d, nodes = store["d"], store["nodes"]
+    rd = store["models"][0]["readouts"]
+    for j in rd:
+        nodes[j]["lam"] = rng.choice([l for l in LAMS if l > 0] or LAMS)
+    w1, w2 = rng.choice([0, 1]), rng.choice([0, 1])
+    only = sorted(rng.sample(rd, rng.randint(1, len(rd) - 1)))
+    ops = [dict(op="mfit", model=0, warmup=w1, tform="dict", **gen_batch(rng, d, {j: nodes[j]["dout"] for j in rd}, w1, rng.randint(1, 2))),
+           dict(op="mfit", model=0, warmup=w2, tform="dict", only=only, **gen_batch(rng, d, {j: nodes[j]["dout"] for j in rd}, w2, rng.randint(1, 2))),
+           {"op": "mrun", "model": 0, "X": rows(rng, 2, d)}]
+    return dict(store, ops=ops, tag="pt%d" % i, esn=False)
+
+
 def oracle(ctx, scale=1):
     rng = ctx.rng("oracle")
     out, n1, n2 = [], ctx.n(60, 500) * scale, ctx.n(70, 560) * scale
     dist = {}
+    n0 = ctx.n(12, 120) * scale
+    rng0 = ctx.rng("oracle-partial-targets")
+    for i in range(n0):
+        v = judge_frame(gen_partial_targets(rng0, i))
+        dist["partial-targets-refit"] = dist.get("partial-targets-refit", 0) + 1
+        if v:
+            out.append(v)
     for i in range(n1):
         sc = gen_scenario(rng, i)
         v = judge_frame(sc)
@@ -1010,7 +1036,7 @@ def oracle(ctx, scale=1):
         if v:
             out.append(v)
     n3 += n5
-    return {"evaluations": n1 + n2 + n3, "violations": out, "distribution": dist,
+    return {"evaluations": n0 + n1 + n2 + n3, "violations": out, "distribution": dist,
             "rule": "(i)/(ii) sha256 of every parameter and hyper of every node before/after each operation of a random history: fixed ones "
                     "never change, learned ones only on trainable targets of a training operation; (iii)-(v) two-fit sessions on Ridge, "
                     "reservoir >> Ridge(s), ESN(reservoir, Ridge), SumOffline and ScikitLearnNode: second fit after a completed fit / after a fit failing at "
